@@ -94,9 +94,15 @@ theorem counts_perm {a b : List Entry} (h : a.Perm b) : counts a = counts b := b
 theorem counts_cons (e : Entry) (a : List Entry) : counts (e :: a) = e.count + counts a := by
   simp [counts]
 
-/-- The loop of `AveragePerSecond` keeps `total = Σ counts in the heap`. -/
-theorem expire_total (now h : Nat) (k : Nat) (a : List Entry) (total : Nat) (ht : total = counts a) :
-    (expire now h k a total).2 = counts (expire now h k a total).1 := by
+theorem wsub_counts (c r : Nat) : wsub ((c + r) % W) c = r % W := by
+  unfold wsub W; omega
+
+theorem wadd_counts (t c : Nat) : wadd (t % W) (c % W) = (c % W + t) % W := by
+  unfold wadd W; omega
+
+/-- The loop of `AveragePerSecond` keeps `total = Σ counts in the heap` (modulo 2^64). -/
+theorem expire_total (now h : Nat) (k : Nat) (a : List Entry) (total : Nat) (ht : total = counts a % W) :
+    (expire now h k a total).2 = counts (expire now h k a total).1 % W := by
   induction k generalizing a total with
   | zero => simpa [expire] using ht
   | succ k ih =>
@@ -112,21 +118,20 @@ theorem expire_total (now h : Nat) (k : Nat) (a : List Entry) (total : Nat) (ht 
       · simp only []
         rw [counts_perm (heapPush_perm a' e), counts_cons, ht, hc]
       · apply ih
-        omega
+        rw [ht, hc, wsub_counts]
 
-theorem total_step (s : St) (op : Op) (h : s.total = counts s.heap) :
-    (step s op).1.total = counts (step s op).1.heap := by
+theorem total_step (s : St) (op : Op) (h : s.total = counts s.heap % W) :
+    (step s op).1.total = counts (step s op).1.heap % W := by
   cases op with
   | tick d => exact h
   | add c =>
     simp only [step]
-    rw [counts_perm (heapPush_perm _ _), counts_cons, h]
-    simp; omega
-  | clear => simp [step, counts]
+    rw [counts_perm (heapPush_perm _ _), counts_cons, h, wadd_counts]
+  | clear => simp [step, counts, W]
   | avg hh => simp only [step]; exact expire_total _ _ _ _ _ h
 
-theorem total_final (s : St) (ops : List Op) (h : s.total = counts s.heap) :
-    (final s ops).total = counts (final s ops).heap := by
+theorem total_final (s : St) (ops : List Op) (h : s.total = counts s.heap % W) :
+    (final s ops).total = counts (final s ops).heap % W := by
   induction ops generalizing s with
   | nil => exact h
   | cons op ops ih => exact ih _ (total_step s op h)
